@@ -48,6 +48,9 @@ pub fn profile() -> Profile {
     p.unused_structs = (0, 0);
     p.nonascii = 0;
     p.keyword_names = 1;
+    p.overrides = 3;
+    p.ov_sized_array = 5;
+    p.struct_helpers = 2;
     p
 }
 
